@@ -117,77 +117,94 @@ def isIntText (s : String) : Bool :=
 
 def inIntRange (n : Int) : Bool := MIN_INT < n && n < MAX_INT
 
+/-- Python `repr(float(k))` of a small integer -/
+def intRepr (k : Int) : String := toString k ++ ".0"
+
+/-- `_scalar_node_from_value(Float, x)` for the float with repr `r`: integral values inside the Int range are
+    printed as Int literals -/
+def floatLit (r : String) : Lit :=
+  if r.endsWith ".0" && !(r.contains 'e') then
+    match (String.ofList (r.toList.take (r.length - 2))).toInt? with
+    | some k => if inIntRange k then .int (toString k) (intRepr k) else .float r r
+    | none => .float r r
+  else .float r r
+
+/-- `ast_node_from_value` at one of the five specified scalars -/
+def builtinLit (n : String) (v : J) : Option Lit :=
+  if n == "Boolean" then (match v with | .bool b => some (.bool b) | _ => none)
+  else if n == "Int" then (match v with | .num k => some (.int (toString k) (intRepr k)) | _ => none)
+  else if n == "Float" then
+    (match v with
+     | .obj [("$float", .str r)] => some (floatLit r)
+     | .num k => some (if inIntRange k then .int (toString k) (intRepr k) else .float (intRepr k) (intRepr k))
+     | _ => none)
+  else if n == "String" then (match v with | .str x => some (.str x) | _ => none)
+  else if n == "ID" then
+    (match v with
+     | .str x => some (if isIntText x then .int x (x ++ ".0") else .str x)
+     | .num k => some (.int (toString k) (intRepr k))
+     | _ => none)
+  else none
+
+/-- `ast_node_from_value` at a custom (pass-through) scalar -/
+def customLit (v : J) : Option Lit :=
+  match v with
+  | .bool b => some (.bool b)
+  | .str x => some (if isIntText x then .int x (x ++ ".0") else .str x)
+  | .num k => some (.float (toString k) (intRepr k))             -- FloatValue(str(int))
+  | .obj [("$float", .str r)] => some (.float r r)                 -- FloatValue(str(float))
+  | _ => none
+
 mutual
-/-- text of `print_ast(ast_node_from_value(v, ty))`; `none` = ValueError/TypeError -/
-def valueText (s : SchemaD) : Nat → J → Ty → Option String
+/-- `ast_node_from_value(v, ty)` as a literal; `none` = ValueError/TypeError -/
+def valueLit (s : SchemaD) : Nat → J → Ty → Option Lit
   | 0, _, _ => none
   | fuel+1, v, ty =>
     match ty with
     | .nonNull t =>
-      match valueText s fuel v t with
-      | some "null" => none
+      match valueLit s fuel v t with
+      | some .null => none
       | r => r
     | .list t =>
       match v with
-      | .null => some "null"
-      | .arr items => (itemsText s fuel items t).map fun xs => "[" ++ ", ".intercalate xs ++ "]"
-      | _ => valueText s fuel v t
+      | .null => some .null
+      | .arr items => (itemsLit s fuel items t).map .list
+      | _ => valueLit s fuel v t
     | .named n =>
       match v with
-      | .null => some "null"
+      | .null => some .null
       | _ =>
-        if builtinScalars.contains n then
-          match n, v with
-          | "Boolean", .bool b => some (if b then "true" else "false")
-          | "Int", .num k => some (toString k)
-          | "Float", .obj [("$float", .str r)] =>
-            if r.endsWith ".0" && !(r.contains 'e') then
-              let i := String.ofList (r.toList.take (r.length - 2))
-              match i.toInt? with
-              | some k => if inIntRange k then some (toString k) else some r
-              | none => some r
-            else some r
-          | "Float", .num k => if inIntRange k then some (toString k) else some (toString k ++ ".0")
-          | "String", .str x => some (jsonDumps x)
-          | "ID", .str x => some (if isIntText x then x else jsonDumps x)
-          | "ID", .num k => some (toString k)
-          | _, _ => none
+        if builtinScalars.contains n then builtinLit n v
         else match s.findType n with
           | none => none
           | some t =>
             match t.kind with
-            | .enum => (t.values.find? (·.value == v)).map (·.name)
-            | .scalar =>
-              match v with
-              | .bool b => some (if b then "true" else "false")
-              | .str x => some (if isIntText x then x else jsonDumps x)
-              | .num k => some (toString k)                 -- FloatValue(str(int))
-              | .obj [("$float", .str r)] => some r           -- FloatValue(str(float))
-              | _ => none
+            | .enum => (t.values.find? (·.value == v)).map fun ev => .enum ev.name
+            | .scalar => customLit v
             | .input =>
               match v with
-              | .obj kvs => (fieldsText s fuel kvs t.inputFields).map fun xs => "{" ++ ", ".intercalate xs ++ "}"
+              | .obj kvs => (fieldsLit s fuel kvs t.inputFields).map .obj
               | _ => none
             | _ => none
 
-def itemsText (s : SchemaD) : Nat → List J → Ty → Option (List String)
+def itemsLit (s : SchemaD) : Nat → List J → Ty → Option (List Lit)
   | 0, _, _ => none
   | _, [], _ => some []
   | fuel+1, x :: xs, t =>
-    match valueText s fuel x t, itemsText s fuel xs t with
+    match valueLit s fuel x t, itemsLit s fuel xs t with
     | some a, some b => some (a :: b)
     | _, _ => none
 
 /-- `_object_value_node_from_value`: fields in the order of the TYPE; absent non-required fields are skipped -/
-def fieldsText (s : SchemaD) : Nat → List (String × J) → List ArgD → Option (List String)
+def fieldsLit (s : SchemaD) : Nat → List (String × J) → List ArgD → Option (List (String × Lit))
   | 0, _, _ => none
   | _, _, [] => some []
   | fuel+1, kvs, f :: fs =>
-    match fieldsText s fuel kvs fs with
+    match fieldsLit s fuel kvs fs with
     | none => none
     | some rest =>
       match kvs.find? (·.1 == f.name) with
-      | some (_, v) => (valueText s fuel v f.type).map fun t => (f.name ++ ": " ++ t) :: rest
+      | some (_, v) => (valueLit s fuel v f.type).map fun l => (f.name, l) :: rest
       | none => if f.type.isNonNull && !f.hasDefault then none else some rest
 end
 
@@ -203,6 +220,9 @@ partial def litText : Lit → String
   | .enum v => v
   | .list l => "[" ++ ", ".intercalate (l.map litText) ++ "]"
   | .obj fs => "{" ++ ", ".intercalate (fs.map fun (k, v) => k ++ ": " ++ litText v) ++ "}"
+
+/-- text of `print_ast(ast_node_from_value(v, ty))` -/
+def valueText (s : SchemaD) (fuel : Nat) (v : J) (ty : Ty) : Option String := (valueLit s fuel v ty).map litText
 
 def dirAppText (d : DirApp) : String :=
   "@" ++ d.name ++ (if d.args.isEmpty then "" else "(" ++ ", ".intercalate (d.args.map fun (k, v) => k ++ ": " ++ litText v) ++ ")")
@@ -344,5 +364,31 @@ def runHistory (st : PrinterState) : List (Opts × SchemaD × Apps) → List Str
   | c :: rest =>
     let r := printSchema c.1 c.2.1 c.2.2 st
     r.1 :: runHistory r.2 rest
+
+/-! ### `schemaToDoc`: the definitions the printer writes, as a document (the by-name content of `to_string`) -/
+
+def deprDirs (r : Option String) : List DirApp :=
+  match r with | none => [] | some x => [{ name := "deprecated", args := [("reason", .str x)] }]
+
+def argToDef (s : SchemaD) (a : ArgD) : InputValDef :=
+  { name := a.name, desc := a.desc, type := a.type, default := if a.hasDefault then valueLit s valueFuel a.default a.type else none }
+
+def fieldToDef (s : SchemaD) (f : FieldD) : FieldDef :=
+  { name := f.name, desc := f.desc, args := f.args.map (argToDef s), type := f.type, dirs := deprDirs f.deprecated }
+
+def enumValToDef (v : EnumValD) : EnumValDef := { name := v.name, desc := v.desc, dirs := deprDirs v.deprecated }
+
+def typeToDef (s : SchemaD) (t : TypeD) : TypeDef :=
+  { kind := t.kind, name := t.name, desc := t.desc, interfaces := t.interfaces, fields := t.fields.map (fieldToDef s),
+    members := t.members, values := t.values.map enumValToDef, inputFields := t.inputFields.map (argToDef s) }
+
+def directiveToDef (s : SchemaD) (d : DirectiveD) : DirDef :=
+  { name := d.name, desc := d.desc, args := d.args.map (argToDef s), locations := d.locations }
+
+def schemaToDoc (s : SchemaD) : Doc :=
+  s.directives.map (fun d => .directive (directiveToDef s d)) ++ s.types.map (fun t => .type (typeToDef s t)) ++
+  [.schema { ops := (match s.query with | some q => [("query", q)] | none => []) ++
+                    (match s.mutation with | some q => [("mutation", q)] | none => []) ++
+                    (match s.subscription with | some q => [("subscription", q)] | none => []) }]
 
 end PyGql.SdlPrint
